@@ -74,6 +74,15 @@ func (g *patGen) node(depth int) string {
 		k := []string{"(?=", "(?!", "(?<=", "(?<!"}[g.r.n(4)]
 		return k + g.node(depth-1) + ")"
 	case 8:
+		switch g.r.n(4) {
+		case 0: // conditional on a group
+			if g.groups > 0 {
+				return fmt.Sprintf("(?(%d)%s|%s)", 1+g.r.n(g.groups), g.node(depth-1), g.node(depth-1))
+			}
+		case 1: // named group
+			g.groups++
+			return g.quant(fmt.Sprintf("(?<n%d>%s)", g.groups, g.node(depth-1)))
+		}
 		return g.quant("(?>" + g.node(depth-1) + ")")
 	default:
 		return g.quant(g.atom())
